@@ -70,8 +70,32 @@ class Unit:
     @property
     def cps(self):
         if self._cps is None:
+            self._closure_protocol_steps()
             self._cps = [self._mk(s) for s in self.bi.child_polls()]
         return self._cps
+
+    def _closure_protocol_steps(self):
+        """A scan written through a closure-taking iterator adapter (`indexer.iter().find_map(|i| .. fut.poll(cx) ..)`,
+        `futures.by_ref().find(|(i, _)| .. readiness.clear_ready(*i))`) puts protocol steps into a closure body that the
+        path rules, which read one body at a time, cannot place on the paths of the poll body.  That is neither a
+        violation nor a pass: the unit is reported as inconclusive (exit 2), naming the closure."""
+        model = self.model
+        try:
+            bodies = model.F.bodies
+        except AttributeError:
+            return
+        for x in bodies:
+            if x.kind != "Closure" or x.root != self.body.def_ or x is self.body:
+                continue
+            xi = model.info(x)
+            steps = [s.callee.name for s in xi.child_polls()]
+            steps += [s.callee.name for s in xi.sites if not s.callee.indirect and s.callee.name in ("clear_ready", "set_ready", "set_all_ready", "readiness")
+                      and s.callee.local]
+            if steps:
+                from .rulekit import Inconclusive
+                raise Inconclusive("anchor missing: %s performs protocol steps (%s) inside the closure %s - a scan expressed through a "
+                                   "closure-taking iterator adapter is outside the idioms the path rules can read" % (
+                                       self.body.def_, ", ".join(sorted(set(steps))), x.def_))
 
     def _mk(self, site):
         c = Cps(self, site)
